@@ -114,6 +114,26 @@ def make_drv_single(lean=False):
 drv_single = make_drv_single(False)
 
 
+def drv_single_folded(ch):
+    """Every config with ALL operands constant (so the node reaches the generic folding path) x both constant sources of
+    the primary value x the size limits exhaustively (cost 0): a seeded defect needed an omitted middle optional input
+    (Clip(c, , max)) together with a small output_size_limit."""
+    cid = ch.all("cfg", [c.id for c in mz.CONFIGS if "Q" not in _kinds(c)[:1]])
+    c = mz.BY_ID[cid]
+    kind = _kinds(c)[0]
+    xsrc = ch.all("xsrc", ["const", "init"])
+    steps = [{"cfg": cid, "ops": [[0, "const"] for _ in c.pooled]}]
+    it = dict(fam="single_folded", steps=steps, x=[kind, 0], xsrc=xsrc)
+    opts = {}
+    for k in ("input_size_limit", "output_size_limit"):
+        v = ch.all("opt." + k, optrun.OPT_MENU[k])
+        if v is not None:
+            opts[k] = v
+    it.update(dict(wrap=list(WRAPM[0]), opset=18 if 18 in c.opsets else c.opsets[0], api=ch.all("api", ["optimize", "fold_constants"]),
+                   opts=opts, entry="proto", vi=False))
+    return it
+
+
 def _compatible(p, c):
     """First primary kind of producer p whose output kind the consumer c accepts."""
     for k in _kinds(p):
@@ -475,6 +495,7 @@ def plan_c03(tier, with_corpus=True):
     items = []
     if tier == "quick":
         items += _run(drv_single, 1, fam, "single")
+        items += _run(drv_single_folded, 0, fam, "single_folded")
         items += _run(make_drv_pair(pair_list(True, per_op=2), False), 0, fam, "pair")
         # the primary value is an overridable initializer (initializer that is also a graph input) reaching the
         # consumer through an alias-like producer: a seeded defect folded Add(Identity(c), Identity(c))
@@ -486,6 +507,7 @@ def plan_c03(tier, with_corpus=True):
         lifts = ["init"]
     else:
         items += _run(drv_single, 1, fam, "single")
+        items += _run(drv_single_folded, 0, fam, "single_folded")
         items += _run(make_drv_single(lean=True), 2, fam, "single_pairs_of_deviations")
         items += _run(make_drv_pair(pair_list(False), False), 1, fam, "pair")
         items += _run(make_drv_pair(rulepair_list(True), True, "rulepair"), 1, fam, "rulepair")
